@@ -184,3 +184,103 @@ def make_arena(backing, init, traces, metas):
              "out": [], "num": 0, "lo": 0, "chg": [], "msg": str(e)[:100]}]})
         metas.append({"kind": "setup", "backing": backing})
         return None
+
+
+# ---------------------------------------------------------------------------- scaled arenas
+SCALED_OPS = ("buffer", "getslice", "setslice", "cwrite", "move", "movein", "moveout")
+TORN = 256          # projection of a unit whose K bytes are not the pattern of one value
+_pat0, _pats = {}, {}
+
+
+def pattern(v, k):
+    """The K real bytes that stand for one model byte of value v: position dependent, and different
+    at every position for different values."""
+    if (v, k) not in _pats:
+        if k not in _pat0:
+            _pat0[k] = bytes((q * 37 + (q >> 8) * 11 + (q >> 16) * 5) & 0xFF for q in range(k))
+        if len(_pats) > 600:
+            _pats.clear()
+        _pats[(v, k)] = _pat0[k].translate(bytes((x + v) & 0xFF for x in range(256)))
+    return _pats[(v, k)]
+
+
+def expand(units, k):
+    return b"".join(pattern(v, k) for v in units)
+
+
+def project(data, k):
+    """Real bytes -> model bytes; None if the length is not a whole number of units."""
+    if len(data) % k:
+        return None
+    out = []
+    mv = memoryview(data)
+    p0 = _pat0.get(k) or pattern(0, k) and _pat0[k]
+    for u in range(len(data) // k):
+        v = (mv[u * k] - p0[0]) & 0xFF
+        out.append(v if mv[u * k:(u + 1) * k] == pattern(v, k) else TORN)
+    return out
+
+
+class ScaledArena:
+    """The same model-level operations as BufArena, but every model byte is K real bytes
+    (pattern(v, K)): histories over a few units exercise buffers and copies of K..n*K real bytes with
+    every overlap direction; events are projected back to units (a unit that is not the pattern of one
+    value is TORN = 256, which no reference result contains) and judged by Trace_Buffer.tla."""
+    def __init__(self, backing, init_units, k):
+        self.k, self.backing, self.n = k, backing, len(init_units)
+        self.real = BufArena(backing, expand(init_units, k))
+        self.bufs, self.fbs = self.real.bufs, self.real.fbs
+
+    @property
+    def bufdesc(self):
+        return [(off // self.k, n // self.k) for off, n in self.real.bufdesc]
+
+    def snap_units(self):
+        return project(self.real.snap(), self.k)
+
+    def header(self):
+        return {"mem": self.snap_units(), "backing": self.backing, "scale": self.k}
+
+    def live_ok(self):
+        return self.real.live_ok()
+
+    def apply(self, op):
+        k, o = self.k, op["op"]
+        if o not in SCALED_OPS:
+            raise core.MachineryError("operation %s is not available on a scaled arena" % o)
+        ev = {"op": o, "b": op.get("b", 0), "i": op.get("i", 0), "j": op.get("j", 0), "n": op.get("n", 0),
+              "key": op.get("key", NOKEY), "val": list(op.get("val", [])), "st": "ok", "out": [], "num": 0,
+              "lo": 0, "chg": []}
+        before = self.snap_units()
+        rop = dict(op)
+        for fld in ("i", "j", "n"):
+            rop[fld] = ev[fld] * k
+        if o in ("setslice", "movein"):
+            rop["val"] = expand(ev["val"], k)
+        if o in ("getslice", "setslice"):
+            sc = lambda x: {"none": x["none"], "v": x["v"] * k}
+            rop["key"] = {"a": sc(ev["key"]["a"]), "b": sc(ev["key"]["b"]), "s": ev["key"]["s"]}
+        if o == "cwrite":
+            try:
+                self.real.root[ev["i"] * k:(ev["i"] + 1) * k] = pattern(ev["val"][0], k)
+            except Exception as e:
+                ev["st"] = type(e).__name__
+        else:
+            r = self.real.apply(rop)
+            ev["st"] = r["st"]
+            if "msg" in r:
+                ev["msg"] = r["msg"]
+            if o == "buffer":
+                ev["num"] = r["num"] // k if r["num"] % k == 0 else -1
+            elif o == "getslice" and r["st"] == "ok":
+                ev["out"] = project(bytes(r["out"]), k) if -2 not in r["out"] else [-2]
+                if ev["out"] is None:
+                    ev["out"] = [-2]
+            elif o == "moveout" and r["st"] == "ok":
+                tail = r["out"][ev["n"] * k:]
+                ev["out"] = (project(bytes(r["out"][:ev["n"] * k]), k) or []) + list(tail)
+        after = self.snap_units()
+        if after != before:
+            diff = [x for x in range(self.n) if after[x] != before[x]]
+            ev["lo"], ev["chg"] = diff[0], after[diff[0]:diff[-1] + 1]
+        return ev
